@@ -99,6 +99,8 @@ OPS = ["sm2_keygen", "sm2_sign", "sm2_sign_ctx", "sm2_sign_ctx_long", "sm2_sign_
        "hs_tlcp_untrusted", "hs_tls12_untrusted", "hs_tls13_untrusted", "hs_tls12_badclient",
        # a record is altered in flight (handshake phase or application phase): the failure paths of record protection
        "hs_tlcp_tamper", "hs_tls12_tamper", "hs_tls13_tamper", "hs_tls13_mutual_tamper", "hs_tlcp_apptamper", "hs_tls12_apptamper", "hs_tls13_apptamper",
+       # CBC records whose padding-length octet is altered in flight (the claim then reaches into MAC and data): the padding failure path
+       "hs_tlcp_apptamper_padlen", "hs_tlcp_apptamper_padlen", "hs_tlcp_apptamper_padlen", "hs_tls12_apptamper_padlen", "hs_tls12_apptamper_padlen", "hs_tls12_apptamper_padlen",
        # the connection dies inside an application record (header and part of the body arrive, then EOF) after data was exchanged
        "hs_tlcp_appcut", "hs_tls12_appcut", "hs_tls13_appcut", "hs_tls13_appcut",
        # one side closes (tls_shutdown) while data sent by the peer is still unread in flight
@@ -118,7 +120,7 @@ def _pki(proto, role, tag="c19"):
     return _PKI[k]
 
 
-def _handshake(ctx, proto, mutual, defect, seed, secrets):
+def _handshake(ctx, proto, mutual, defect, seed, secrets, padlen=False):
     shim().freeze_time(pki.T0)
     sch, sfiles = _pki(proto, "server")
     cch, cfiles = _pki(proto, "client")
@@ -160,7 +162,15 @@ def _handshake(ctx, proto, mutual, defect, seed, secrets):
                 return [rec.raw]
             i = state["n"]; state["n"] += 1
             if i == (target % 3 if defect == "apptamper" else target):
-                b = bytearray(rec.raw); b[5 + (seed >> 3) % (len(b) - 5)] ^= 1 << (seed & 7)
+                b = bytearray(rec.raw)
+                hv = int.from_bytes(hashlib.sha256(b"c19 padlen %d" % seed).digest()[:4], "big")     # generated seeds are mostly small numbers
+                if defect == "apptamper" and proto != "tls13" and (hv & 1 or padlen) and len(b) >= 5 + 48:
+                    # CBC records: the octet that decrypts to the padding length (last octet of the last-but-one block) gets any other
+                    # value - the receiver then sees a padding claim of 0..255 octets reaching into MAC and data
+                    b[len(b) - 17] ^= 1 + (hv >> 1) % 255
+                    state["padlen"] = True
+                else:
+                    b[5 + (seed >> 3) % (len(b) - 5)] ^= 1 << (seed & 7)
                 return [bytes(b)]
             return [rec.raw]
         kw["hook"] = hook
@@ -271,7 +281,7 @@ def ops(case, ctx):
             proto = parts[1]
             mutual = "mutual" in parts or "badclient" in parts
             defect = next((x for x in ("untrusted", "badclient", "apptamper", "appcut", "shutunread", "sendfail", "tamper") if x in parts), None)
-            _handshake(ctx, proto, mutual, defect, seed, secrets)
+            _handshake(ctx, proto, mutual, defect, seed, secrets, padlen="padlen" in parts)
             # the random values sent in the clear (hello randoms, key shares' public part) are not secrets, but the first
             # 32-byte draws also contain them: keep only draws that never appear on the wire - decided below by exclusion
         else:
